@@ -56,6 +56,8 @@ func fill(L int) {
 	}
 }
 
+// dataMsg: a concrete record; the source port doubles as the arrival token
+// (the statement fixes names and values of fields, not the header layout).
 func dataMsg(seq uint32) *entities.Message {
 	set := entities.NewSet(true)
 	set.PrepareSet(entities.Data, 256)
@@ -66,7 +68,7 @@ func dataMsg(seq uint32) *entities.Message {
 	ie5, _ := registry.GetInfoElement("dataRecordsReliability", 0)
 	ie6, _ := registry.GetInfoElement("sourceIPv4Address", 0)
 	set.AddRecord([]entities.InfoElementWithValue{
-		entities.NewUnsigned16InfoElement(ie1, 4242),
+		entities.NewUnsigned16InfoElement(ie1, uint16(seq)),
 		entities.NewUnsigned64InfoElement(ie2, 123456789),
 		entities.NewStringInfoElement(ie3, "pod-x"),
 		entities.NewFloat64InfoElement(ie4, 1.25e-07),
@@ -114,10 +116,11 @@ func Check_Arrival() {
 	}
 	for a := 0; a < arrivals; a++ {
 		e := flowRecords[kept+a]
-		sx.Assert(contains(e, "Sequence No.: "+strconv.Itoa(1000+a)), "new-entry-not-last-in-arrival-order")
+		sx.Assert(contains(e, "sourceTransportPort") && contains(e, strconv.Itoa(1000+a)), "new-entry-not-last-in-arrival-order")
 		// every field of the record appears by element name and value (concrete values only: rendering is the host fmt)
-		sx.Assert(contains(e, "sourceTransportPort: 4242") && contains(e, "octetDeltaCount: 123456789") && contains(e, "sourcePodName: pod-x") &&
-			contains(e, "samplingProbability: 1.25e-07") && contains(e, "dataRecordsReliability: true") && contains(e, "sourceIPv4Address: 10.1.2.3"), "field-missing-from-rendered-entry")
+		for _, nv := range [][2]string{{"octetDeltaCount", "123456789"}, {"sourcePodName", "pod-x"}, {"samplingProbability", "1.25e-07"}, {"dataRecordsReliability", "true"}, {"sourceIPv4Address", "10.1.2.3"}} {
+			sx.Assert(contains(e, nv[0]) && contains(e, nv[1]), "field-missing-from-rendered-entry")
+		}
 	}
 	if L == maxFlowRecords {
 		sx.Reach("full-window")
